@@ -136,7 +136,7 @@ func runC11(r *run) {
 		// loaders that spell names differently (a theme directory in front of a defaults
 		// directory): every route must ask each loader for the name as that loader resolves it
 		for _, has := range []string{"0", "1", "01"} {
-			for route := 0; route < 7; route++ {
+			for route := 0; route < 8; route++ {
 				emit(caseT{"absdiff", []string{has, fmt.Sprint(route)}})
 			}
 		}
@@ -208,9 +208,23 @@ func execAbsDiff(r *run, c caseT) {
 			tpl, err = set.FromString("{% extends \"part.tpl\" %}")
 		case 6:
 			tpl, err = set.FromString("{% import \"part.tpl\" m %}P{{ m() }}")
+		case 7:
+			// a rooted name (these loaders resolve every name from their root) written as a
+			// literal and computed at run time, inside a block of a child in a sub-directory
+			for _, l := range []*dirLoader{l0, l1} {
+				l.files[l.dir+"/layout.tpl"] = "<{% block c %}{% endblock %}>"
+				l.files[l.dir+"/sub/child.tpl"] = "{% extends \"layout.tpl\" %}{% block c %}{% include \"part.tpl\" %}|{% include n %}{% endblock %}"
+			}
+			tpl, err = set.FromFile("sub/child.tpl")
 		}
 		if err == nil {
-			out, err = tpl.Execute(nil)
+			out, err = tpl.Execute(pongo2.Context{"n": "part.tpl"})
+			if err == nil && route == 7 {
+				halves := strings.Split(strings.Trim(out, "<>"), "|")
+				if len(halves) != 2 || halves[0] != halves[1] {
+					err = errors.New("a rooted name rendered differently as a literal and computed: " + out)
+				}
+			}
 		}
 		return nil
 	}()
